@@ -96,7 +96,10 @@ func runC05(c *LCase) (viol string, nontrivial bool) {
 	}
 	defer w.Destroy()
 	for _, a := range c.Adds {
-		w.W.Add(string(w.Subst(a)))
+		a := string(w.Subst(a))
+		if p := guarded(fmt.Sprintf("Add(%q)", a), func() { w.W.Add(a) }); p != "" {
+			return p, false
+		}
 	}
 	if c.Plug {
 		w.Plug()
@@ -108,7 +111,9 @@ func runC05(c *LCase) (viol string, nontrivial bool) {
 		w.FsOp(s)
 	}
 	if c.Overflow > 0 {
-		overflowBurst(w.W, c.Overflow)
+		if p := overflowBurst(w.W, c.Overflow); p != "" {
+			return p, true
+		}
 	}
 	pending, _ := engine.Fionread(w.Wfd)
 	nontrivial = pending > 0 || c.Plug
